@@ -322,12 +322,20 @@ def extraKeys (b : BSpec φ κ) : List (Key κ) :=
 
 def inB (b : BSpec φ κ) (k : Key κ) (d : Doc φ κ) : Bool := decide (k ∈ keysOf b d)
 
+/-- `RangeCollector::new` and `FilterCollector::new` build the child collectors of every bucket
+up front; all other collectors build them when the first document reaches the bucket -/
+def eager (b : BSpec φ κ) : Bool :=
+  match b with
+  | .range _ _ _ => true
+  | .filter _ => true
+  | _ => false
+
 /-- one bucket of a document list: doc_count and the children run on the bucket's documents
-(`children` is never run on an empty bucket: bounds-created buckets have `aggs: BTreeMap::new()`) -/
+(a histogram bucket created from the bounds has `aggs: BTreeMap::new()`: no children) -/
 def bucketOf (b : BSpec φ κ) (children : List (Doc φ κ) → List (Node κ)) (docs : List (Doc φ κ))
     (k : Key κ) : Nat × List (Node κ) :=
   let dk := docs.filter (inB b k)
-  (dk.length, if dk.isEmpty then [] else children dk)
+  (dk.length, if dk.isEmpty && !(eager b) then [] else children dk)
 
 /-- all buckets of a document list, before any threshold -/
 def rawBuckets (b : BSpec φ κ) (children : List (Doc φ κ) → List (Node κ))
